@@ -124,7 +124,13 @@ type knownEntry struct {
 	Case     json.RawMessage `json:"case"`
 }
 
-func loadKnown(id string) []knownEntry {
+// loadFixed returns the regression cases of repaired defects: they suppress
+// nothing and must pass.
+func loadFixed(id string) []knownEntry { return loadByStatus(id, "fixed") }
+
+func loadKnown(id string) []knownEntry { return loadByStatus(id, "known") }
+
+func loadByStatus(id, status string) []knownEntry {
 	p := env("VERIF_KNOWN")
 	if p == "" {
 		return nil
@@ -141,7 +147,7 @@ func loadKnown(id string) []knownEntry {
 	}
 	var out []knownEntry
 	for _, e := range f.Findings {
-		if e.Property == id && e.Status == "known" {
+		if e.Property == id && e.Status == status {
 			out = append(out, e)
 		}
 	}
@@ -350,6 +356,32 @@ func Check[C any](t *testing.T, id, name, rule string, gen func(*rapid.T) C, run
 			writeViolation(s.Violation)
 			flush()
 			t.Fatalf("VIOLATION %s/%s key=%s (regression case of known finding %s fails differently): %s", id, name, r.V.Key, k, r.V.Msg)
+		}
+	}
+	// Regression cases of repaired defects ("fixed" entries): plain replays that
+	// bypass rapid; a failure is an ordinary violation.
+	for _, e := range loadFixed(id) {
+		if e.Check != name || len(e.Case) == 0 {
+			continue
+		}
+		var c C
+		if err := json.Unmarshal(e.Case, &c); err != nil {
+			continue // case format changed since the fix; generated search still covers it
+		}
+		r := safeRun(name, run, c)
+		s.record(e.Case, r)
+		mu.Lock()
+		n, _ := s.Extra["fixed_regression_cases"].(int64)
+		s.Extra["fixed_regression_cases"] = n + 1
+		mu.Unlock()
+		if r.V != nil {
+			if _, ok := known[r.V.Key]; ok {
+				continue
+			}
+			s.Violation = &violationFile{ID: id, Check: name, Key: r.V.Key, Msg: "(regression case of fixed finding " + e.Key + ") " + r.V.Msg, Case: e.Case}
+			writeViolation(s.Violation)
+			flush()
+			t.Fatalf("VIOLATION %s/%s key=%s: regression case of a fixed finding fails again: %s", id, name, r.V.Key, r.V.Msg)
 		}
 	}
 	flush()
